@@ -51,6 +51,7 @@ func (a *insertQueryAction) String() string {
 func (a *insertQueryAction) execute(th *Thread, ut *db19.UpdateTran) int {
 	qr, _, _ := Setup(a.query, ReadMode, ut)
 	hdr := qr.Header()
+	st := MakeSuTran(ut)
 	fields := ut.GetSchema(a.table).Columns
 	// read all the rows before writing any
 	// so the query does not see the rows we output (if it reads the same table)
@@ -71,7 +72,13 @@ func (a *insertQueryAction) execute(th *Thread, ut *db19.UpdateTran) int {
 				}
 				rb.Add(th.Timestamp())
 			} else {
-				rb.AddRaw(row.GetRaw(hdr, f))
+				raw := row.GetRaw(hdr, f)
+				if len(raw) > 0 && raw[0] == PackForward {
+					// e.g. extend x = r where r is a rule: store the value,
+					// not the forward reference
+					raw = row.GetRawVal(hdr, f, th, st)
+				}
+				rb.AddRaw(raw)
 			}
 		}
 		rec := rb.Trim().Build()
